@@ -141,11 +141,17 @@ def restore_player(ctx, league, name, path, ids_seen=None, check=False):
     else:
         mu, sigma = league.stored(name)
         label = league.label(name)
-        if path == "create_rating":
-            new = type(league.factory).create_rating([mu, sigma], label) if label is not None or len(name) % 2 else type(league.factory).create_rating([mu, sigma])
-        else:
-            path = "rating"
-            new = league.factory.rating(mu, sigma, label) if label is not None or len(name) % 2 else league.factory.rating(mu, sigma)
+        try:
+            if path == "create_rating":
+                new = type(league.factory).create_rating([mu, sigma], label) if label is not None or len(name) % 2 else type(league.factory).create_rating([mu, sigma])
+            else:
+                path = "rating"
+                new = league.factory.rating(mu, sigma, label) if label is not None or len(name) % 2 else league.factory.rating(mu, sigma)
+        except Exception as e:
+            if ctx.prop == "C20" and check:
+                # finite stored values (zero and negatives included) must be accepted
+                ctx.violation("C20/restore_value:%s:raised_%s" % (path, type(e).__name__), {"mu": enc(mu), "sigma": enc(sigma), "name": repr(label), "message": str(e)[:200]})
+            raise
         if check:
             check_built(ctx, new, mu, sigma, label, path, ids_seen)
     league.players[name] = new
@@ -250,6 +256,10 @@ def exec_call(ctx, league, op, tracer=None):
     names = op["teams"]
     rs = prepare_call(ctx, league, op)
     teams = league.teams_of(names)
+    if op["op"] == "PREDICT" and op.get("alias"):
+        # the SAME team list object at several positions of one query ([team] * k): the
+        # reference rebuilds every position as a distinct, equal-valued list
+        teams = [teams[i % len(teams)] for i in op["alias"]]
     rec = {"op": op, "snap": snap_teams(teams), "reseeded": rs, "cfg": league.cfg}
     if op["op"] == "RATE":
         kw = rate_kwargs(op)
@@ -330,7 +340,11 @@ def gen_predict_op(rng, names, league, shape=(4, 3), rosters=None):
         teams = gen_match(rng, names, league, shape_max=shape)
     if teams is None:
         return None
-    return {"op": "PREDICT", "kind": rng.choice(["win", "draw", "rank"]), "teams": teams}
+    op = {"op": "PREDICT", "kind": rng.choice(["win", "draw", "rank"]), "teams": teams}
+    if rng.random() < 0.08:
+        k = len(teams)
+        op["alias"] = rng.choice([[0] * 3, [0, 1, 0], list(range(k)) + [0], [0, 0] + list(range(1, k)), [k - 1] * 4])
+    return op
 
 
 def gen_malformed_op(rng, ctx, names, league, calls=faults.CALLS):
@@ -1607,7 +1621,10 @@ class StoreDriver:
     def op_NEW(self, op):
         ctx = self.ctx
         for L in (self.A, self.B):
-            r = exec_new(ctx, L, op)
+            try:
+                r = exec_new(ctx, L, op)
+            except Exception as e:
+                ctx.violation("C20/restore_value:rating:raised_%s" % type(e).__name__, {"op": op, "message": str(e)[:200]})
             if "clone_of" in op and op["clone_of"] in L.players:
                 continue  # a deep copy of a template (same id by design), not a built rating
             ctx.evaluations += 1
